@@ -106,7 +106,7 @@ fn child(sc_path: &str, out_path: &str) -> i32 {
             return 3;
         }
     }
-    let pm = ParModel { w: sc.w_expected, script: sc.script.clone(), process_cap: model::PROCESS_CAP, fill_at_end: sc.fill_at_end };
+    let pm = ParModel { w: sc.w_expected, script: sc.script.clone(), process_cap: model::PROCESS_CAP, fill_at_end: sc.fill_at_end, bug: None };
     let stats = Arc::new(Mutex::new(ChildStats::default()));
     let first: Arc<Mutex<Option<(RunResult, Vec<Ev>)>>> = Arc::new(Mutex::new(None));
     let mut builder = loom::model::Builder::new();
@@ -479,20 +479,20 @@ fn model_instances(prop: &str, thorough: bool) -> Vec<(String, ParModel)> {
                     continue;
                 }
                 for fill in [true, false] {
-                    v.push((format!("W{w}_F{f}_fill{fill}"), ParModel { w, script: data(f), process_cap: model::PROCESS_CAP, fill_at_end: fill }));
+                    v.push((format!("W{w}_F{f}_fill{fill}"), ParModel { w, script: data(f), process_cap: model::PROCESS_CAP, fill_at_end: fill, bug: None }));
                 }
             }
         }
         // a small hashing queue makes the feeder block on it (the code's capacity is 16)
         for cap in [1usize, 2] {
-            v.push((format!("W2_F4_cap{cap}"), ParModel { w: 2, script: data(4), process_cap: cap, fill_at_end: true }));
+            v.push((format!("W2_F4_cap{cap}"), ParModel { w: 2, script: data(4), process_cap: cap, fill_at_end: true, bug: None }));
         }
     } else {
         for w in 1..=maxw {
             let fs: Vec<usize> = if w >= 3 { vec![2, 3.min(maxf)] } else { (1..=maxf.min(if thorough { 5 } else { 4 })).collect() };
             for f in fs {
                 for (name, script) in fault_scripts(f) {
-                    v.push((format!("W{w}_F{f}_{name}"), ParModel { w, script, process_cap: model::PROCESS_CAP, fill_at_end: true }));
+                    v.push((format!("W{w}_F{f}_{name}"), ParModel { w, script, process_cap: model::PROCESS_CAP, fill_at_end: true, bug: None }));
                 }
             }
         }
@@ -638,6 +638,25 @@ fn run_parent(prop: &str, tier: &str, seed: u64, report: Option<String>, replay:
             model_rows.insert(name, row);
         }
     }
+    // ---- layer 2 self-test: defects the pinned commit had, switched on in the model, must be found
+    let mut selftest = serde_json::Map::new();
+    if replay.is_none() && prop == "C06" {
+        let ok = Read::Data { valid: true };
+        let cases: Vec<(&str, model::Bug, Vec<Read>, usize)> = vec![
+            ("return_before_stop", model::Bug::ReturnBeforeStop, vec![ok, Read::Err], 1),
+            ("worker_dies_on_bad_frame", model::Bug::WorkerDiesOnBadFrame, vec![Read::Data { valid: false }, ok, ok, ok, Read::End], 1),
+            ("one_stop_token_short", model::Bug::OneStopTokenShort, vec![ok, Read::End], 2),
+        ];
+        for (name, bug, script, w) in cases {
+            let m = ParModel { w, script, process_cap: model::PROCESS_CAP, fill_at_end: true, bug: Some(bug) };
+            let (uniq, _, _, disc) = model::explore(m, 4);
+            let found = disc.iter().any(|(p, _)| p == "safe" || p == "returns");
+            selftest.insert(name.to_string(), json!({"found": found, "states": uniq}));
+            if !found {
+                machinery.push(format!("protocol-model self-test: the seeded defect '{name}' was not found by the exploration"));
+            }
+        }
+    }
     let _ = std::fs::remove_dir_all(&scratch);
     if conf_fail > 0 {
         eprintln!("[parx] note: {conf_fail} execution trace(s) were not accepted by the protocol model (model stale for this tree?): {}", first_conf.clone().unwrap_or_default());
@@ -657,6 +676,7 @@ fn run_parent(prop: &str, tier: &str, seed: u64, report: Option<String>, replay:
             "max_preemptions_completed": if thorough { 3 } else { 2 },
             "first_conformance_failure": first_conf,
             "per_scenario": Value::Object(per_scenario), "model_instances": Value::Object(model_rows),
+            "model_selftest_seeded_defects": Value::Object(selftest),
             "checker_cmd": format!("parx {} --tier {tier}", prop.to_lowercase()),
             "trusted_base": ["loom 0.7.2 models std::sync / std::thread", "bounded-channel stand-in in src/verif_sync.rs models crossbeam-channel (blocking, FIFO, disconnection)", "stateright 0.31.0 DFS"],
         },
